@@ -241,6 +241,18 @@ func Draw(t *rapid.T, m *Machine, o Opts) Step {
 		if rapid.Bool().Draw(t, "dgen") {
 			s.Den = h.GenDigits(t, "den.d", 30)
 		}
+		if rapid.IntRange(0, 3).Draw(t, "dpow") == 0 {
+			// denominators longer than the numerator and than the default precision: powers of ten, two and five
+			k := rapid.IntRange(1, 70).Draw(t, "dpowk")
+			base := rapid.SampledFrom([]int64{10, 10, 2, 5}).Draw(t, "dpowb")
+			if base == 2 {
+				k *= 3
+			}
+			s.Den = new(big.Int).Exp(big.NewInt(base), big.NewInt(int64(k)), nil).String()
+			if rapid.Bool().Draw(t, "dpown1") {
+				s.I = rapid.SampledFrom([]string{"1", "-1", "3", "7", "123456789"}).Draw(t, "dpown")
+			}
+		}
 		if zp > uint(o.MaxPrec) {
 			s.Op, s.P, s.I, s.Den = "setprec", uint(rapid.IntRange(1, o.MaxPrec).Draw(t, "cap")), "", ""
 		}
